@@ -4,11 +4,12 @@
 EXTENDS Lru, TraceIO, Known_Lru
 
 VARIABLES l, subj, kf,
-          bst      \* FsaCache as a bounded store: id -> <<child_base, parent, terminal>>
+          bst,     \* FsaCache as a bounded store: id -> <<child_base, parent, terminal>>
+          zp       \* FsaCache zero-path data: id -> path bytes
 
-vars == <<lru, loc, last, bst, l, subj, kf>>
+vars == <<lru, loc, last, bst, zp, l, subj, kf>>
 
-TraceInit == /\ LruInit(1, 1) /\ bst = EmptyFn
+TraceInit == /\ LruInit(1, 1) /\ bst = EmptyFn /\ zp = EmptyFn
              /\ l = 1 /\ subj = [subject |-> "none"] /\ kf = {}
 
 N == Cardinality(Shards)
@@ -50,6 +51,11 @@ LruStep(e) ==
        /\ \A i \in 1..Len(e.c) : e.c[i][2] = (\E s \in Shards : LHas(lru[s], e.c[i][1]))
        /\ Len_(e.len)
     \/ e.op = "capacity" /\ e.r = N * lru[1].cap /\ UNCHANGED <<lru, loc, last>>
+    \/ e.op = "is_empty" /\ IsEmpty_(e.r)
+    \/ e.op = "keys" /\ Keys_(e.r)
+    \/ e.op = "for_each_shard" /\ e.ok /\ ForEachShard(e.k, e.hits, e.lens)
+    \/ e.op = "for_each_shard" /\ ~e.ok /\ Maintenance
+    \/ e.op = "rebalance" /\ Maintenance
     \/ e.op = "clear" /\ e.ok /\ Clear(EvSeen(e))
     \/ e.op = "clear" /\ ~e.ok /\ UNCHANGED <<lru, loc, last>>
 
@@ -62,21 +68,36 @@ FsaStep(e) ==
        /\ NoDup([i \in 1..Len(e.live) |-> e.live[i][1]])
        /\ bst' = BAfter(bst, <<e.cb, e.p, e.t>>, e.id, LiveIds(e.live))
        /\ \A i \in 1..Len(e.live) : Rec3(e.live[i]) = bst'[e.live[i][1]]
-    \/ e.op = "cache_state" /\ ~e.ok /\ UNCHANGED bst
-    \/ e.op = "get_state" /\ BGet(bst, e.id, e.r) /\ UNCHANGED bst
+       /\ zp' = ZpKeep(zp, LiveIds(e.live) \ {e.id})       \* the new state starts without a zero path
+    \/ e.op = "cache_state" /\ ~e.ok /\ UNCHANGED <<bst, zp>>
+    \/ e.op = "get_state" /\ BGet(bst, e.id, e.r) /\ UNCHANGED <<bst, zp>>
     \/ /\ e.op = "remove_state"
        /\ e.r = (e.id \in DOMAIN bst)
        /\ bst' = [i \in DOMAIN bst \ {e.id} |-> bst[i]]
-    \/ e.op = "fsa_clear" /\ bst' = EmptyFn
-    \/ e.op = "is_full" /\ (e.r => Cardinality(DOMAIN bst) >= subj.max) /\ UNCHANGED bst
-    \/ /\ e.op = "fsa_probe"     \* every id ever issued: get_state answers exactly the store
-       /\ \A i \in 1..Len(e.g) : BGet(bst, e.g[i][1], e.g[i][2])
-       /\ UNCHANGED bst
+       /\ zp' = ZpKeep(zp, DOMAIN bst \ {e.id})
+    \/ e.op = "fsa_clear" /\ bst' = EmptyFn /\ zp' = EmptyFn
+    \/ e.op = "is_full" /\ (e.r => Cardinality(DOMAIN bst) >= subj.max) /\ UNCHANGED <<bst, zp>>
+    \/ /\ e.op = "fsa_probe"     \* every id ever issued: get_state / get_zero_path answer exactly the store
+       /\ \A i \in 1..Len(e.g) : BGet(bst, e.g[i][1], e.g[i][2]) /\ BGet(zp, e.g[i][1], e.g[i][3])
+       /\ UNCHANGED <<bst, zp>>
+    \* add_zero_path(id, segments) -> Ok only for a live state; get_zero_path returns the concatenation
+    \/ /\ e.op = "add_zero_path" /\ e.ok
+       /\ e.id \in DOMAIN bst
+       /\ zp' = ZpSet(zp, e.id, Concat(e.segs)) /\ UNCHANGED bst
+    \/ e.op = "add_zero_path" /\ ~e.ok /\ UNCHANGED <<bst, zp>>
+    \/ /\ e.op = "get_zero_path" /\ BGet(zp, e.id, e.r)
+       /\ (e.r /= None => e.total = Len(e.r[1]))
+       /\ UNCHANGED <<bst, zp>>
+    \* CachedState value helpers: new / parent / is_terminal / is_free / mark_free / mark_used
+    \/ /\ e.op = "cstate"
+       /\ e.got = <<e.cb, e.p, e.t, e.f>>
+       /\ e.marked = <<e.cb, e.p, e.t, TRUE>> /\ e.unmarked = <<e.cb, e.p, e.t, FALSE>>
+       /\ UNCHANGED <<bst, zp>>
 
 Step(e) ==
     IF subj.domain = "fsa"
     THEN FsaStep(e) /\ UNCHANGED <<lru, loc, last>>
-    ELSE LruStep(e) /\ UNCHANGED bst
+    ELSE LruStep(e) /\ UNCHANGED <<bst, zp>>
 
 (* a call the contract accepts (refusal rule) but that is the visible effect of a recorded defect:  *)
 (* C17-KF4 - put is refused (Err, nothing changed) although some shard has room: LruMap::clear  *)
@@ -90,7 +111,7 @@ ResetTo(e) ==
     /\ IF e.domain = "lru" /\ e.constructed
        THEN lru' = [s \in 1..e.shards |-> LNew(e.cap)]
        ELSE lru' = [s \in 1..1 |-> LNew(1)]
-    /\ loc' = EmptyFn /\ last' = NoCall /\ bst' = EmptyFn
+    /\ loc' = EmptyFn /\ last' = NoCall /\ bst' = EmptyFn /\ zp' = EmptyFn
 
 TraceNext ==
     /\ l <= Len(Rec)
@@ -100,7 +121,7 @@ TraceNext ==
        THEN ResetTo(e) /\ subj' = e /\ kf' = kf
        ELSE /\ subj' = subj
             /\ IF UseKF /\ \E id \in KnownIds : DevApplies(id, e, subj)
-               THEN \E id \in KnownIds : KnownDeviation(id, e, subj) /\ kf' = kf \cup {id} /\ UNCHANGED bst
+               THEN \E id \in KnownIds : KnownDeviation(id, e, subj) /\ kf' = kf \cup {id} /\ UNCHANGED <<bst, zp>>
                ELSE Step(e) /\ kf' = kf \cup Notes(e)
 
 TraceSpec == TraceInit /\ [][TraceNext]_vars
